@@ -199,6 +199,9 @@ def main():
             cache["r"] = fb()
         return cache["r"]
     chk.run_contracts("contracts.c19", fallback={"*": fb_once})
+    # the precondition of update() (strictly increasing times) at its callers: the fixed-step loops record ((i+1)*dt, y_{i+1})
+    from checks.c03 import solver_fallback
+    chk.run_contracts("contracts.c03", names=["BaseBackend._solve_euler[dde]", "BaseBackend._solve_heun[dde]"], fallback={"*": solver_fallback(chk)})
     # the cross-check of the encoding (and of what the value model cannot see: dtype, aliasing) always runs
     for f in fb_once():
         if not any(v for v in chk.violations if False):
